@@ -40,7 +40,7 @@ Definition has_fty (t : fty) (v : fval) : bool :=
   | TF64, XF64 _ | TStr, XStr _ | TBool, XBool _ => true
   | TStrs, XStrs l => in_i64 (Z.of_nat (length l))
   | TInts k, XInts k' l => ikind_eqb k k' && forallb (in_kind k) l && in_i64 (Z.of_nat (length l))
-  | TMapSI k, XMapSI k' kvs => ikind_eqb k k' && forallb (fun kv => in_kind k (snd kv)) kvs
+  | TMapSI k, XMapSI k' kvs => ikind_eqb k k' && forallb (fun kv => in_kind k (snd kv)) kvs && in_i64 (Z.of_nat (length kvs))
   | _, _ => false
   end.
 
